@@ -213,7 +213,11 @@ def check_cfgs(rep: Report, cfgs: List[Dict[str, Any]], modes: List[str], rng: r
                 c_out, c_grads = raw_run(cfg, mode, back)
             except Exception as ex:
                 if mode == "fx_forward":
-                    skipped_fx += 1     # not symbolically traceable (data-dependent python in the op): outside the fx clause
+                    skipped_fx += 1     # not symbolically traceable (data-dependent python in the op)
+                    if not fx_expected(cfg):    # recorded as a KNOWN FINDING per op (known_findings.json), not silently skipped
+                        mean = cfg.get("constraint", "__default__") in ("gmean", "hmean", "amean") and cfg["op"] in FX_TRACEABLE_AT_PIN
+                        rep.violation(f"{cfg['op']} cannot be traced by plain torch.fx: {type(ex).__name__}: {str(ex)[:100]}; cfg={cfg}", {"cfg": cfg, "mode": mode, "what": "fx_trace"},
+                                      key=f"kf:fx_untraceable:{'mean_constraint' if mean else cfg['op']}")
                     if fx_expected(cfg):
                         rep.violation(f"{cfg['op']} cannot be traced by plain torch.fx any more (it could on the pinned tree, so symbolic tracing no longer reproduces its forward values): {type(ex).__name__}: {str(ex)[:100]}; cfg={cfg}",
                                       {"cfg": cfg, "mode": mode, "what": "fx_trace"}, key=f"fx_no_longer_traceable:{cfg['op']}")
